@@ -107,6 +107,30 @@ def build_tree(variant=0, q_owner='t2'):
     return nodes, descs, vals
 
 
+def build_marker_tree():
+    """A replication whose repetitions carry different descriptors: `101002 224255` after a bitmap over 012101 and 012103 (each
+    repetition holds the first-order statistic of another element)."""
+    descs, vals = [], []
+    nodes = []
+    t1 = V(descs, vals, _elem(12101, 'TEMPERATURE'), 280.0)
+    t3 = V(descs, vals, _elem(12103, 'DEW POINT'), 275.0)
+    nodes += [t1, t3]
+    nodes.append(V(descs, vals, _elem(8023, 'FIRST ORDER STATISTICS', 'CODE TABLE'), 4))
+    marks = []
+    for owner, did, name, v in ((t1, 12101, 'TEMPERATURE', 281.0), (t3, 12103, 'DEW POINT', 276.0)):
+        mk = V(descs, vals, Obj('MarkerDescriptor', {'id': did, 'name': name, 'unit': 'K', 'nbits': 12, 'scale': 1, 'refval': 0, 'marker_id': 224255}), v,
+               cls='FirstOrderStatsNode')
+        owner.fields['attributes'] = [mk]
+        marks.append(mk)
+    rd = Obj('FixedReplicationDescriptor', {'id': 101002, 'members': [Obj('OperatorDescriptor', {'id': 224255})]})
+    nodes.append(Obj('FixedReplicationNode', {'descriptor': rd, 'members': marks}))
+    nodes.append(V(descs, vals, _elem(20011, 'CLOUD AMOUNT', 'CODE TABLE'), 3))
+    return nodes, descs, vals
+
+
+MARKER_PATHS = ['/101002/F12101', '/101002/F12103', '/101002[0]/F12101', '/101002/F12103[0]', '/012103.F12103', '/012101.F12101', '/F12103', '/020011']
+
+
 PATHS = [
     '/001001', '/012101', '/012101[0]', '/012101[1]', '/012101[2]', '/012101[-1]', '/012101[::-1]', '/012101[1:]', '/340011/004001', '/340011/004002',
     '/340011/004002[0]', '/340011/004002[-1]', '/340011/004002[::2]', '/102000/007004', '/102000/012101', '/102000/012101[0]', '/102000/007004[1]',
@@ -269,6 +293,23 @@ def rule_r1(repo):
             if got is None or list(got.keys()) != [0] or got[0] != want:
                 rr.fail('DataQuerent.query:value', fi.where, 'query %r on the %s returns %r; evaluating the path over the nested JSON rendering gives %r (one envelope per '
                         'replication, one list per repetition, matches in document order)' % (path, label, got, {0: want}), witness={'path': path, 'tree': label})
+    # a replication whose repetitions differ (marker operators): each repetition is matched on its own
+    tree = build_marker_tree()
+    js = render_json(repo, *tree)
+    msg = make_message([tree], False)
+    for path in MARKER_PATHS:
+        sub, comps = parse_ref(path)
+        try:
+            want = ref_query(js, comps)
+        except RefError as e:
+            raise AnalysisError('reference evaluation of %r failed: %s' % (path, e))
+        fi, r = run_query(repo, msg, path)
+        rr.instance('%s on a replication of marker values -> %r' % (path, want))
+        got = result_values(r) if r.ok else None
+        if not r.ok or got is None or got != {0: want}:
+            rr.fail('DataQuerent.query:differing-repetitions', fi.where, 'query %r on `012101 012103 ... 101002 224255` (the two repetitions hold F12101 and F12103) %s; evaluating '
+                    'the path over the nested JSON rendering gives %r: a child step below a replication must be matched in every repetition, not on the first one only' % (
+                        path, 'raises ' + r.exc.cls if not r.ok else 'returns %r' % (got,), {0: want}), witness={'path': path})
     rr.require_floor(50)
     return rr
 
